@@ -1534,7 +1534,7 @@ def build_cases(ctx, profile, nrandom, ntemplate, ntwin, dist):
         if render(h2) is not None and len(h2["steps"]) > len(hs[i]["steps"]):
             twins.append(("insert", i, len(hs), keep))
             hs.append(h2)
-        t = twin_bwd_to_val(hs[i], r)
+        t = twin_bwd_to_val(hs[i], r) if profile == "C06" else None
         if t:
             twins.append(("b2v", i, len(hs), t[1]))
             hs.append(t[0])
